@@ -45,6 +45,16 @@ NA = {
 }
 
 
+TECH = {
+ "C01": "deterministic simulation: seeded channel-fault injection on honest traffic + tape-driven accessor/iterator histories on the real parsers; panic, step-bound and hang monitors; explicit replay files",
+ "C06": "deterministic simulation: exhaustive buffer-capacity fault sweep per seeded builder configuration against the real writers",
+ "C08": "deterministic simulation: exhaustive single-fault enumeration (truncate/extend/header/trailer) + seeded double faults on the channel, independent header-reader oracle",
+ "C11": "deterministic simulation: exhaustive single-fault enumeration over the datagram's length chain + tape-driven iterator call histories, reference-tiler oracle",
+ "C17": "deterministic simulation: twin-world buffer residue + capacity sweep + reused-arena write histories with shadow-arena oracle",
+ "C18": "deterministic simulation: exhaustive short-read/corruption enumeration with error-truth invariants + stream reassembly loop driven by the library's errors (bounded liveness)",
+ "C20": "deterministic simulation: seeded builder call histories checked by refinement against a reference model, FIR hash order behind a seeded seam",
+}
+
 def main():
     checks = []
     for pid, (level, ref, text, note) in sorted(CLAIMED.items()):
